@@ -96,6 +96,8 @@ def parse_trace(path):
 
 def classify_path(p, sb_root):
     work = os.path.join(sb_root, "work")
+    if not os.path.isabs(p):
+        p = os.path.normpath(os.path.join(work, p))
     home = os.path.join(sb_root, "home")
     if p.startswith(os.path.join(work, ".goit") + "/"):
         rel = p[len(os.path.join(work, ".goit")) + 1:]
@@ -199,11 +201,18 @@ def window(ops_done, next_op, sb_root):
 KNOWN_SITES = {"HEAD": "HEAD", "ref": "ref", "index": "index", "object": "object", "config": "config", "gconfig": "config"}
 
 
+def reach_fsck(s):
+    """fsck restricted to what is reachable from the branches and the staging area: a half-written
+    object file nothing refers to yet is not a broken repository (a reachable one is reported through
+    the reference that leads to it)"""
+    return [x for x in fsck(s) if not (x.startswith("object ") and ("does not inflate" in x or "does not hash" in x))]
+
+
 def usable(shim, sb, before, intended):
     """the C15 oracle on the state left by a kill: list of problems"""
     probs = []
     s = Snap(sb)
-    probs += fsck(s)
+    probs += reach_fsck(s)
     for argv in (["ls-files"], ["status"], ["log"], ["branch", "--list"], ["reflog"]):
         r = sb.run(argv)
         if r.cls in ("panic", "timeout"):
@@ -212,9 +221,18 @@ def usable(shim, sb, before, intended):
             probs.append("the repository no longer loads: %r" % r.err[:120])
     old, new = before.refs, (intended.refs if intended is not None else {})
     for n, v in s.refs.items():
-        if v not in (old.get(n), new.get(n)) and not (v in old.values() and n in new):
-            probs.append("branch %r points to %r: neither its old (%r) nor its intended (%r) commit" %
-                         (n, v, old.get(n), new.get(n)))
+        if v in (old.get(n), new.get(n)) or (v in old.values() and n in new):
+            continue
+        # a commit made in another second has another id: compare what it records
+        try:
+            c1 = s.commit(bytes.fromhex(v.decode()))
+            c2 = intended.commit(bytes.fromhex(new[n].decode()))
+            if c1["tree"] == c2["tree"] and c1["parents"] == c2["parents"] and c1["message"] == c2["message"]:
+                continue
+        except Exception:
+            pass
+        probs.append("branch %r points to %r: neither its old (%r) nor its intended (%r) commit" %
+                     (n, v, old.get(n), new.get(n)))
     return probs
 
 
@@ -310,7 +328,7 @@ def run_scenario(shim, sbase, name, setup, target, mode, stats, rng, model_ok, t
                 probs = usable(shim, sb, before, after)
                 if name == "init" and probs:
                     extra["site"] = "init"
-                elif name == "branch-rename" and probs and any("does not exist while other" in p for p in probs):
+                elif target.name == "branch-rename" and probs and any("does not exist while other" in p for p in probs):
                     extra["site"] = "rename"
                 elif win in KNOWN_SITES:
                     extra["site"] = KNOWN_SITES[win]
@@ -329,10 +347,14 @@ def run_scenario(shim, sbase, name, setup, target, mode, stats, rng, model_ok, t
                             and core.mask_log(s2.hlog) is not None if after.hlog is not None else True)
                     if not same and op["what"] not in ("mkdir",):
                         probs.append("exit 0 although %s of %s failed and the result differs from the fault-free run" % (op["what"], cls))
-                f = fsck(s2)
+                f = reach_fsck(s2)
                 if f:
                     probs += ["after the failure: " + x for x in f[:2]]
-                    if win in KNOWN_SITES:
+                    if name == "init":
+                        extra["site"] = "init"
+                    elif target.name == "branch-rename" and any("does not exist while other" in x for x in f):
+                        extra["site"] = "rename"
+                    elif win in KNOWN_SITES:
                         extra["site"] = KNOWN_SITES[win]
                 for n, v in s2.refs.items():
                     if v != before.refs.get(n) and v and re.fullmatch(rb"[0-9a-f]{40}", v):
